@@ -25,6 +25,12 @@ func c04Alphabet() []fsx.Op {
 		fsx.Op{K: "WRITE", H: "root/big", Off: 600 * 4096, Cnt: 1, Pat: 0x51, Stable: 2},
 		fsx.Op{K: "SETATTR", H: "root/big", Size: 5},
 		fsx.Op{K: "REMOVE", H: "root", N: "big"},
+		// directories of more than one block whose only survivor sits in a particular slot
+		fsx.Op{K: "CREATEMANY", H: "root/d", N: "m", Cnt: 40},
+		fsx.Op{K: "KEEPONLY", H: "root/d", N: "m030"}, // slot 32: first slot of the second block
+		fsx.Op{K: "KEEPONLY", H: "root/d", N: "m031"},
+		fsx.Op{K: "KEEPONLY", H: "root/d", N: "m005"},
+		fsx.Op{K: "KEEPONLY", H: "root/d", N: "m039"},
 	)
 	return al
 }
@@ -40,19 +46,27 @@ func c04After(w *World, path []fsx.Op, r fsx.Reply, implFail bool, mis *reffs.Mi
 
 func init() {
 	Checks["C04"] = C04
+	// writes and truncations at every block / indirection boundary (the C02 offset alphabet), fsck as the oracle
+	RegisterSeq("c04.off", &SeqSpec{Prop: "C04", DiskSize: 6000, Setup: []fsx.Op{{K: "CREATE", H: "root", N: "f"}}, Alphabet: offAlphabet(), After: c04After,
+		Key: func(w *World) string { w.Probe = offProbe(); return w.defaultKey() }})
 	RegisterSeq("c04.seq", &SeqSpec{Prop: "C04", DiskSize: 3000, Alphabet: c04Alphabet(), After: c04After,
 		Key: func(w *World) string { w.Probe = crashProbe; return w.defaultKey() }})
 }
 
 func C04(r *report.Report, tier string) {
+	offDepth := 2
+	if tier == "thorough" {
+		offDepth = 3
+	}
 	depth, cdepth, bound, cap := 4, 2, 1, 64
 	if tier == "thorough" {
 		depth, cdepth, bound, cap = 5, 3, 2, 1024
 	}
 	r.Only = map[string]bool{"C04": true}
-	r.Rule = fmt.Sprintf("independent fsck (pointers in the data region, no block with two owners, owned => marked, inode bitmap <=> kind, tree rooted at the root with every in-use inode reached exactly once, unique well-formed names, . and .. right, no block beyond size/ShrinkSize) on the log-aware logical disk (i) in every state of a breadth-first search to depth %d over a %d-symbol alphabet incl. directory renames between parents, rename into itself, REMOVE/SETATTR on directories and big-file frees, (ii) in the final state of every schedule (<=%d deviations) of the C03 harnesses, (iii) on the logical disk (home blocks + recovered log, decoded independently) of every crash image of all depth-<=%d crash histories incl. images cut while a 600-block file is being freed in the background", depth, len(c04Alphabet()), bound, cdepth)
+	r.Rule = fmt.Sprintf("independent fsck (pointers in the data region, no block with two owners, owned => marked, inode bitmap <=> kind, tree rooted at the root with every in-use inode reached exactly once, unique well-formed names, . and .. right, no block beyond size/ShrinkSize) on the log-aware logical disk (i) in every state of a breadth-first search to depth %d over a %d-symbol alphabet incl. directory renames between parents, rename into itself, REMOVE/SETATTR on directories, big-file frees and multi-block directories reduced to one survivor in a chosen slot, and of a second search over writes/truncations at every block and indirection boundary up to the maximum file size, (ii) in the final state of every schedule (<=%d deviations) of the C03 harnesses, (iii) on the logical disk (home blocks + recovered log, decoded independently) of every crash image of all depth-<=%d crash histories incl. images cut while a 600-block file is being freed in the background", depth, len(c04Alphabet()), bound, cdepth)
 	s1 := RunSeq(r, "c04.seq", depth)
-	r.Extra["searches"] = []*SeqSummary{s1}
+	s2 := RunSeq(r, "c04.off", offDepth)
+	r.Extra["searches"] = []*SeqSummary{s1, s2}
 	for _, h := range concHarnesses() {
 		if timeUp() {
 			r.Exhaustive = false
